@@ -7,7 +7,8 @@ use libfuzzer_sys::fuzz_target;
 use vh::props::hashes::*;
 
 fn piece(u: &mut Unstructured) -> Piece {
-    match u.int_in_range(0u8..=10).unwrap_or(0) {
+    match u.int_in_range(0u8..=11).unwrap_or(0) {
+        11 => Piece::Big(u.int_in_range(0u16..=2048).unwrap_or(0)),
         0..=3 => Piece::Fixed(match u.int_in_range(0u8..=3).unwrap_or(0) { 0 => 0, 1 => 1, _ => u.int_in_range(0u16..=700).unwrap_or(0) }),
         4..=7 => Piece::ToBoundary(u.int_in_range(-2i8..=2).unwrap_or(0)),
         _ => Piece::Blocks(u.int_in_range(1u8..=4).unwrap_or(1), u.int_in_range(-2i8..=2).unwrap_or(0)),
